@@ -284,15 +284,20 @@ ATStrayOK(H, i) == \/ ~H.calls[i].stray
 
 \* which reading to blame when none fits: the one that fails the fewest clauses, a wrong number of lines counting most
 ATWeight(f) == Cardinality(f) + (IF "line_count" \in f THEN 10 ELSE 0)
+ATBest(H, i) == LET F == {ATFailWith(H, i, cd) : cd \in ATCands(H, i)} IN CHOOSE f \in F : \A g \in F : ATWeight(f) <= ATWeight(g)
 ATFailingCall(H, i) ==
     LET call == H.calls[i]
-        F == {ATFailWith(H, i, cd) : cd \in ATCands(H, i)}
         out == IF ATUnconstrained(H, i) THEN {}
                ELSE IF ATMustReject(H, i) THEN (IF call.err = "none" THEN {"not_rejected"} ELSE {})
                ELSE IF ATSelBad(call.tab, call.o) THEN {}
                ELSE IF call.err # "none" THEN (IF ATMayReject(H, i) THEN {} ELSE {"rejected"})
                ELSE IF \E cd \in ATCands(H, i) : ATFailWith(H, i, cd) = {} THEN {}
-               ELSE CHOOSE f \in F : \A g \in F : ATWeight(f) <= ATWeight(g)
+               \* none fits.  Diagnosis (it names the clause, the verdict stands): if the rows are what the call would print
+               \* had the constructor never been given array_delim, say so instead of "row"
+               ELSE LET f1 == ATBest(H, i)
+                        f2 == ATBest([H EXCEPT !.ctor.adelim = "-"], i)
+                    IN IF ATGiven(H.ctor.adelim) /\ "row" \in f1 /\ "row" \notin f2 /\ "line_count" \notin f2
+                       THEN f2 \cup {"constructor_array_delim_ignored"} ELSE f1
     IN out \cup (IF ATStrayOK(H, i) THEN {} ELSE {"stray_output"})
 
 \* leads: documented in aprint's docstring but not in the code / in the code but not documented
@@ -303,7 +308,8 @@ ATLeadsCall(H, i) ==
             \A d \in ATDelimSet(H, i, "table") : L[1].raw # ATJoin([j \in 1..Len(sel) |-> ATPad(w.nfmt, ATName(tab, w, j))], d))
      THEN {"nformat_not_applied"} ELSE {}) \cup
     (IF w.fmt.kind = "f3" /\ w.hdr = "T" /\ ATSelScalarFloat(tab, w) /\ call.err # "none" THEN {"format_fallback_for_names"} ELSE {}) \cup
-    (IF w.sel.form = "index" /\ ~ATSelBad(tab, w) /\ call.err # "none" THEN {"fields_by_index_rejected"} ELSE {})
+    (IF w.sel.form = "index" /\ ~ATSelBad(tab, w) /\ call.err # "none" /\ tab.nrows > 0 /\ ~(w.nlines.given /\ w.nlines.n > tab.nrows)
+     THEN {IF "fancy" \in ATTypeSet(H, i) THEN "fields_by_index_rejected_fancy" ELSE "fields_by_index_rejected"} ELSE {})
 
 \* A12: close() completes a named file; every prefix of the history left a prefix of the final text
 ATFailingClose(H) ==
@@ -340,9 +346,9 @@ ATCmpFailing(c, o) ==
          (IF c.verbose /\ \E n \in ATCmpNames(c.a) \cap ATCmpNames(c.b) : n \notin VRange(o.mentioned) THEN {"verbose_field_missing"} ELSE {})
 
 \* ---- A16: ahelp ------------------------------------------------------------------------------
-\* c == [tab (fields carry ts, the numpy type string), pretty], o == [err, size, nfields, typ, toks]
-\* toks: the blank-separated tokens after the first line, three per field (name, type, value or array[..])
-ATShapeStr(sh) == "array[" \o ATJoin([j \in DOMAIN sh |-> ATIdx(sh[j])], ",") \o "]"
+\* c == [tab (fields carry ts, the numpy type string), pretty], o == [err, size, nfields, typ, fields]
+\* o.fields[j]: was the name of field j found (as a blank-separated token, after the name of field j-1)?  then ts = the
+\* token after it, dims = the integers in the rest of the text up to the next field's name
 ATAhelpFailing(c, o) ==
     LET nf == Len(c.tab.fields) IN
     IF c.tab.nrows = 0 THEN {}                                          \* the example value of row `index` does not exist
@@ -350,10 +356,9 @@ ATAhelpFailing(c, o) ==
     ELSE (IF o.size # c.tab.nrows THEN {"top_size"} ELSE {}) \cup
          (IF o.nfields # nf THEN {"top_nfields"} ELSE {}) \cup
          (IF o.typ # "records" THEN {"top_type"} ELSE {}) \cup
-         (IF Len(o.toks) # 3 * nf THEN {"field_lines"}
-          ELSE (IF \E j \in 1..nf : o.toks[3 * j - 2] # c.tab.fields[j].nm THEN {"field_names_in_order"} ELSE {}) \cup
-               (IF \E j \in 1..nf : o.toks[3 * j - 1] # c.tab.fields[j].ts THEN {"field_types"} ELSE {}) \cup
-               (IF \E j \in 1..nf : c.tab.fields[j].shape # <<>> /\ o.toks[3 * j] # ATShapeStr(c.tab.fields[j].shape)
+         (IF \E j \in 1..nf : ~o.fields[j].found THEN {"field_names_in_order"}
+          ELSE (IF \E j \in 1..nf : o.fields[j].ts # c.tab.fields[j].ts THEN {"field_types"} ELSE {}) \cup
+               (IF \E j \in 1..nf : c.tab.fields[j].shape # <<>> /\ o.fields[j].dims # c.tab.fields[j].shape
                 THEN {"field_shapes"} ELSE {}))
 
 \* ===================================================================== PART B
@@ -383,7 +388,8 @@ ATRandindFailing(c, o) ==
 \* lo / hi: every value of a seeded run is >= -1 / <= 1;  stub: the values for the scripted deviates us
 ATSranduFailing(c, o) ==
     IF o.err # "none" THEN {"rejected"}
-    ELSE (IF o.shape # (IF c.n = 0 THEN <<>> ELSE <<c.n>>) THEN {"shape"} ELSE {}) \cup
+    \* the module docstring says srandu(num=1), the signature num=None: without an argument a scalar or one number
+    ELSE (IF o.shape \notin (IF c.n = 0 THEN {<<>>, <<1>>} ELSE {<<c.n>>}) THEN {"shape"} ELSE {}) \cup
          (IF ~o.lo \/ ~o.hi THEN {"range"} ELSE {}) \cup
          (IF o.again THEN {} ELSE {"reproducible"})
 ATSranduLeads(c, o) ==
